@@ -18,10 +18,11 @@ Core-only.
 -/
 import Biogo.Go.Wire
 import Biogo.Model.PalsOracle
+import Biogo.Model.PalsOptimise
 import Biogo.Generated.PalsConsts
 
 namespace Biogo.Drive.C15
-open Biogo.Wire Biogo.PalsOracle
+open Biogo.Wire Biogo.PalsOracle Biogo.PalsOptimise
 open Biogo.Generated.Pals (SameCost DiffCost RMatchCost)
 
 def lettersOf (s : String) : Array Nat := (s.toList.map Char.toNat).toArray
@@ -128,22 +129,37 @@ def recovers (self : Bool) (qLen : Nat) (p : Plant) (o : HitObs) : Bool :=
   let mirror := self && 2 * overlap h.abpos h.aepos p.bPos p.bLen > p.bLen && 2 * overlap qs qe p.aPos p.aLen > p.aLen
   strandOK && (direct || mirror)
 
-def handleCase (self : Bool) (minLen minIdMilli : Int) (plants : List Plant) (target query : Array Nat)
+def handleCase (self : Bool) (minLen minIdMilli maxMemMB : Int) (plants : List Plant) (target query : Array Nat)
     (obs : String) : Verdict :=
   let baseTags := [if self then "self" else "non-self"] ++
     (if plants.isEmpty then ["no-plant"] else []) ++
     (if plants.any (·.comp) then ["plant-revcomp"] else []) ++
     (if plants.any (!·.comp) then ["plant-forward"] else []) ++
     (if plants.any (fun p => p.aLen ≠ p.bLen) then ["plant-indel"] else [])
-  if obs.startsWith "err:optimise" then { status := "skip", tags := baseTags ++ ["optimise-rejects"], detail := obs }
+  let optIn (w d : Int) : OptIn :=
+    { tlen := target.size, qlen := if self then 0 else query.size, minHitLen := minLen, seedDiffs0 := d,
+      minWordSize := w, tubeOffsetArg := 0, maxMem := if maxMemMB > 0 then some (maxMemMB * 1048576) else none }
+  if obs.startsWith "err:optimise" then
+    -- Optimise found no parameters: the model must agree
+    match tokens obs with
+    | [_, o] =>
+      match parseInts (o.drop 2).toString with
+      | some [w, d] =>
+        match optimise (optIn w d) with
+        | none => { status := "ok", tags := baseTags ++ ["optimise-rejects"] }
+        | some p => diff s!"optimise-model-accepts k={p.wordSize} n={p.minMatch} e={p.maxError}" (baseTags ++ ["optimise-rejects"])
+      | _ => bad "observation"
+    | _ => bad "observation"
   else if obs.startsWith "err:" || obs.startsWith "panic" || obs == "hang" then
     fail s!"implementation {obs.take 120}" baseTags
   else
   match tokens obs with
-  | [p, hs] =>
-    if !(p.startsWith "P=" && hs.startsWith "H=") then bad "observation" else
-    match parseNats (p.drop 2).toString, parseHits (hs.drop 2).toString with
-    | some [k, n, e, off], some hits =>
+  | [p, o, hs] =>
+    if !(p.startsWith "P=" && o.startsWith "O=" && hs.startsWith "H=") then bad "observation" else
+    match parseNats (p.drop 2).toString, parseInts (o.drop 2).toString, parseHits (hs.drop 2).toString with
+    | some [k, n, e, off], some [ow, od], some hits =>
+      let optModel := optimise (optIn ow od)
+      let optAgree := optModel == some { wordSize := k, minMatch := n, maxError := e, tubeOffset := off }
       let working1 := revComp query
       let tags := baseTags ++ (if hits.isEmpty then ["no-hit"] else ["nt", "hits"]) ++ [s!"k{k}"]
       -- filter parameters accepted by Optimise
@@ -164,22 +180,64 @@ def handleCase (self : Bool) (minLen minIdMilli : Int) (plants : List Plant) (ta
         | none =>
           match hits.findSome? (modelWhy minLen minIdMilli) with
           | some w => diff w tags
-          | none => ok tags
+          | none =>
+            if optAgree then ok tags
+            else diff ("optimise-model=" ++ (match optModel with
+              | some q => s!"{q.wordSize},{q.minMatch},{q.maxError},{q.tubeOffset}"
+              | none => "none")) tags
+    | _, _, _ => bad "observation"
+  | _ => bad "observation"
+
+/-- `po`: Optimise alone — the model of the parameter search against the implementation, and the
+    statement "accepted parameters have a positive q-gram threshold and, with the default
+    tubeOffset, TubeOffset ≥ MaxError" on the implementation's choice -/
+def handleOptimise (tlen qlen minLen mem off : Int) (obs : String) : Verdict :=
+  let mk (w d : Int) : OptIn :=
+    { tlen := tlen, qlen := qlen, minHitLen := minLen, seedDiffs0 := d, minWordSize := w,
+      tubeOffsetArg := off, maxMem := if mem > 0 then some (mem * 1048576) else none }
+  let tags := ["optimise-only", if qlen == 0 then "self" else "non-self"]
+  if obs == "err:args" then { status := "ok", tags := tags ++ ["args-rejected"] }
+  else match tokens obs with
+  | ["err:optimise", o] =>
+    match parseInts (o.drop 2).toString with
+    | some [w, d] =>
+      if w < 0 then { status := "skip", tags := tags, detail := "negative minWordSize" } else
+      match optimise (mk w d) with
+      | none => ok (tags ++ ["no-parameters"])
+      | some p => diff s!"optimise-model={p.wordSize},{p.minMatch},{p.maxError},{p.tubeOffset}" tags
+    | _ => bad "observation"
+  | [p, o] =>
+    match parseInts (p.drop 2).toString, parseInts (o.drop 2).toString with
+    | some [k, n, e, t], some [w, d] =>
+      let tags := tags ++ ["nt", "accepted", s!"k{k}"]
+      if !(n + 1 - k * (e + 1) > 0) then fail s!"optimise-threshold-not-positive k={k} n={n} e={e}" tags
+      else if off ≤ 0 && t < e then fail s!"optimise-tubeoffset-below-maxerror off={t} e={e}" tags
+      else if w < 0 then { status := "skip", tags := tags, detail := "negative minWordSize" }
+      else
+        match optimise (mk w d) with
+        | some q =>
+          if q == { wordSize := k, minMatch := n, maxError := e, tubeOffset := t } then ok tags
+          else diff s!"optimise-model={q.wordSize},{q.minMatch},{q.maxError},{q.tubeOffset}" tags
+        | none => diff "optimise-model=none" tags
     | _, _ => bad "observation"
   | _ => bad "observation"
 
-def ops : List String := ["pw"]
+def ops : List String := ["pw", "po"]
 
 def handle (line : String) : String :=
   let (inp, obs) := splitCase line
   match tokens inp with
-  | ["pw", self, minLen, minId, _mem, plants, t, q] =>
-    match parseBool self, parseInt minLen, parseInt minId, parsePlants plants with
-    | some self, some minLen, some minId, some plants =>
+  | ["pw", self, minLen, minId, mem, plants, t, q] =>
+    match parseBool self, parseInt minLen, parseInt minId, parseInt mem, parsePlants plants with
+    | some self, some minLen, some minId, some mem, some plants =>
       let target := lettersOf t
       let query := if self then target else lettersOf q
-      (handleCase self minLen minId plants target query obs).render
-    | _, _, _, _ => (bad "input").render
+      (handleCase self minLen minId mem plants target query obs).render
+    | _, _, _, _, _ => (bad "input").render
+  | ["po", tlen, qlen, minLen, _minId, mem, off] =>
+    match parseInt tlen, parseInt qlen, parseInt minLen, parseInt mem, parseInt off with
+    | some tlen, some qlen, some minLen, some mem, some off => (handleOptimise tlen qlen minLen mem off obs).render
+    | _, _, _, _, _ => (bad "input").render
   | _ => (bad "unknown-op").render
 
 end Biogo.Drive.C15
